@@ -375,16 +375,27 @@ theorem Holds.of_same {w w' : World α} {c d : Nat} {xs : List (Val α)} (hx : H
     Holds w' c xs :=
   ⟨by rw [hs]; exact hx.1, fun i hi => by rw [hd, hm]; exact hx.2 i hi⟩
 
-/-- exchanging / keeping the allocators of two containers that own no block -/
+/-- exchanging / keeping the allocators of two containers that own no block, or keeping them when they do not propagate -/
 theorem SysAll.maybeSwapAlloc_inline {cfg : Cfg} {w : World α} {U A : List Nat} {c o : Nat} (hs : SysAll cfg w U A)
-    (hc : c ∈ A) (ho : o ∈ A) (hco : c ≠ o) (hci : (w.hdr c).data = (w.hdr c).inl) (hoi : (w.hdr o).data = (w.hdr o).inl) :
+    (hc : c ∈ A) (ho : o ∈ A) (hco : c ≠ o)
+    (hok : ((w.hdr c).data = (w.hdr c).inl ∧ (w.hdr o).data = (w.hdr o).inl) ∨ cfg.policy.pocs = false) :
     ∃ w', maybeSwapAlloc cfg c o w = .ok () w' ∧ SysAll cfg w' U A ∧ w'.mem = w.mem ∧ w'.live = w.live ∧
       ∀ d, (w'.hdr d).data = (w.hdr d).data ∧ (w'.hdr d).size = (w.hdr d).size ∧ (w'.hdr d).cap = (w.hdr d).cap := by
   have hoc : o ≠ c := fun h => hco h.symm
   refine ⟨_, maybeSwapAlloc_run cfg c o hco w, ?_, rfl, rfl, ?_⟩
-  · have h1 := hs.setAlloc hc (maybeSwap cfg.policy (w.hdr c).alloc (w.hdr o).alloc).1 (Or.inl hci)
+  · have hk1 : (w.hdr c).data = (w.hdr c).inl ∨ (maybeSwap cfg.policy (w.hdr c).alloc (w.hdr o).alloc).1 = (w.hdr c).alloc := by
+      rcases hok with h | h
+      · exact Or.inl h.1
+      · right; unfold maybeSwap; simp [h]
+    have hk2 : (w.hdr o).data = (w.hdr o).inl ∨ (maybeSwap cfg.policy (w.hdr c).alloc (w.hdr o).alloc).2 = (w.hdr o).alloc := by
+      rcases hok with h | h
+      · exact Or.inl h.2
+      · right; unfold maybeSwap; simp [h]
+    have h1 := hs.setAlloc hc (maybeSwap cfg.policy (w.hdr c).alloc (w.hdr o).alloc).1 hk1
     have e : (upd w.hdr c { w.hdr c with alloc := (maybeSwap cfg.policy (w.hdr c).alloc (w.hdr o).alloc).1 }) o = w.hdr o := upd_other _ _ _ _ hoc
-    have h2 := h1.setAlloc ho (maybeSwap cfg.policy (w.hdr c).alloc (w.hdr o).alloc).2 (Or.inl (by show (upd w.hdr c _ o).data = (upd w.hdr c _ o).inl; rw [e]; exact hoi))
+    have h2 := h1.setAlloc ho (maybeSwap cfg.policy (w.hdr c).alloc (w.hdr o).alloc).2 (by
+      show (upd w.hdr c _ o).data = (upd w.hdr c _ o).inl ∨ _ = (upd w.hdr c _ o).alloc
+      rw [e]; exact hk2)
     simp only [] at h2
     rw [e] at h2
     exact h2
@@ -417,11 +428,11 @@ theorem swapElements_nil (cfg : Cfg) (c o : Nat) (hco : c ≠ o) (w : World α) 
       · simp [upd_other _ _ _ _ hxc, upd_other _ _ _ _ hxo]
   exact (world_hdr_ext this).trans rfl
 
-/-- ELEMENT-WISE SWAP in a system: both containers inline, same inline capacity, `size c ≤ size o` -/
+/-- ELEMENT-WISE SWAP in a system: `size c ≤ size o ≤ capacity c`; both containers inline, or non-propagating allocators -/
 theorem SysAll.swapElements {cfg : Cfg} {w : World α} {U A : List Nat} {c o : Nat} (hs : SysAll cfg w U A)
-    (hc : c ∈ A) (ho : o ∈ A) (hco : c ≠ o) (hN : (w.hdr c).N = (w.hdr o).N)
-    (hcin : (w.hdr c).data = (w.hdr c).inl) (hoin : (w.hdr o).data = (w.hdr o).inl)
-    (hle : (w.hdr c).size ≤ (w.hdr o).size) :
+    (hc : c ∈ A) (ho : o ∈ A) (hco : c ≠ o)
+    (hok : ((w.hdr c).data = (w.hdr c).inl ∧ (w.hdr o).data = (w.hdr o).inl) ∨ cfg.policy.pocs = false)
+    (hle : (w.hdr c).size ≤ (w.hdr o).size) (hfit : (w.hdr o).size ≤ (w.hdr c).cap) :
     ((swapElements cfg c o >>= fun _ => maybeSwapAlloc cfg c o) w).sat
       (fun _ w' => SysAll cfg w' U A ∧ (∀ xs, Holds w o xs → Holds w' c xs) ∧ (∀ xs, Holds w c xs → Holds w' o xs) ∧
           (∀ d ∈ A, d ≠ c → d ≠ o → ∀ xs, Holds w d xs → Holds w' d xs) ∧ w'.live = w.live ∧
@@ -437,7 +448,7 @@ theorem SysAll.swapElements {cfg : Cfg} {w : World α} {U A : List Nat} {c o : N
     have hzc : (w.hdr c).size = 0 := by omega
     rw [bind_run, swapElements_nil cfg c o hco w hzc hz]
     simp only []
-    obtain ⟨w', hrun, hs', hm, hlv, hh⟩ := hs.maybeSwapAlloc_inline hc ho hco hcin hoin (cfg := cfg)
+    obtain ⟨w', hrun, hs', hm, hlv, hh⟩ := hs.maybeSwapAlloc_inline hc ho hco hok
     rw [hrun]
     refine ⟨hs', ?_, ?_, ?_, hlv, (hh c).1, (hh o).1⟩
     · intro xs hx
@@ -448,22 +459,8 @@ theorem SysAll.swapElements {cfg : Cfg} {w : World α} {U A : List Nat} {c o : N
       rw [this]; exact ⟨by rw [(hh o).2.1, hz]; rfl, fun i hi => by simp at hi⟩
     · intro d _ _ _ xs hx
       exact hx.of_same (by rw [hm]) (hh d).1 (hh d).2.1
-  · -- the buffers are different in-object buffers
-    have hNpos : 0 < (w.hdr o).N := by
-      have h1 := hvo.size_le
-      have h2 : (w.hdr o).cap = (w.hdr o).N := (hvo.inl_iff).mpr hoin
-      omega
-    have hii : (w.hdr c).inl ≠ (w.hdr o).inl := by
-      rcases (hs.ok.sep c hc o ho hco).inl with h | ⟨_, h⟩
-      · exact h
-      · omega
-    have hd : (w.hdr o).data ≠ (w.hdr c).data := by rw [hcin, hoin]; exact fun h => hii h.symm
-    have hi : (w.hdr o).data ≠ (w.hdr c).inl := by rw [hoin]; exact fun h => hii h.symm
-    have hfit : (w.hdr o).size ≤ (w.hdr c).cap := by
-      have h1 := hvo.size_le
-      have h2 : (w.hdr o).cap = (w.hdr o).N := (hvo.inl_iff).mpr hoin
-      have h3 : (w.hdr c).cap = (w.hdr c).N := (hvc.inl_iff).mpr hcin
-      omega
+  · -- the buffers are different blocks
+    obtain ⟨hd, hi⟩ := hs.ok.apart hc ho hoc hz
     have hsat := swapElements_sat cfg c o w hvc hl hvo hco hle hfit hd hi
     refine sat_bind hsat (fun _ w1 ⟨hb1, hb2, hhc1, hho1, hvalc, hvalo, hlv1, hn1⟩ => ?_) (fun e w1 ⟨he, hb1, hb2, hh1, hlv1, hn1⟩ => ?_)
     · have hs_h := hs.step ho hb1
@@ -471,7 +468,7 @@ theorem SysAll.swapElements {cfg : Cfg} {w : World α} {U A : List Nat} {c o : N
       have hother1 : ∀ d ∈ A, d ≠ c → d ≠ o → ∀ xs, Holds w d xs → Holds w1 d xs := by
         intro d hd' hdc hdo xs hx
         exact hs_h.ok.holds_other hc hb2 hd' hdc (hs.ok.holds_other ho hb1 hd' hdo hx)
-      obtain ⟨w', hrun, hs', hm, hlv, hh⟩ := hs1.maybeSwapAlloc_inline hc ho hco (by rw [hhc1]; exact hcin) (by rw [hho1]; exact hoin) (cfg := cfg)
+      obtain ⟨w', hrun, hs', hm, hlv, hh⟩ := hs1.maybeSwapAlloc_inline hc ho hco (by rw [hhc1, hho1]; exact hok)
       rw [hrun]
       refine ⟨hs', ?_, ?_, ?_, by rw [hlv, hlv1], by rw [(hh c).1, hhc1], by rw [(hh o).1, hho1]⟩
       · intro xs hx
@@ -566,7 +563,7 @@ theorem SysAll.swapDefault {cfg : Cfg} {w : World α} {U A : List Nat} {c o : Na
       have hoin : (w.hdr o).data = (w.hdr o).inl := (hvo.inl_iff).mp (by have := hvo.cap_ge; omega)
       by_cases hlt : (w.hdr c).size < (w.hdr o).size
       · rw [if_pos (decide_eq_true hlt)]
-        refine Res.sat_mono (SysAll.swapElements hs hc ho hco hN hcin hoin (Nat.le_of_lt hlt)) ?_ ?_
+        refine Res.sat_mono (SysAll.swapElements hs hc ho hco (Or.inl ⟨hcin, hoin⟩) (Nat.le_of_lt hlt) (by have := hvo.size_le; have : (w.hdr o).cap = (w.hdr o).N := (hvo.inl_iff).mpr hoin; have : (w.hdr c).cap = (w.hdr c).N := (hvc.inl_iff).mpr hcin; omega)) ?_ ?_
         · intro _ w' ⟨a, b, c', d, e, _⟩; exact ⟨a, b, c', d, e⟩
         · intro e w' h; exact h
       · rw [if_neg (by simpa using hlt)]
@@ -577,7 +574,7 @@ theorem SysAll.swapDefault {cfg : Cfg} {w : World α} {U A : List Nat} {c o : Na
           | ok u w1 => exact maybeSwapAlloc_comm cfg c o hco w1
           | thrown e w1 => rfl
         rw [hcomm]
-        refine Res.sat_mono (SysAll.swapElements hs ho hc hoc hN.symm hoin hcin hge) ?_ ?_
+        refine Res.sat_mono (SysAll.swapElements hs ho hc hoc (Or.inl ⟨hoin, hcin⟩) hge (by have := hvc.size_le; have : (w.hdr o).cap = (w.hdr o).N := (hvo.inl_iff).mpr hoin; have : (w.hdr c).cap = (w.hdr c).N := (hvc.inl_iff).mpr hcin; omega)) ?_ ?_
         · intro _ w' ⟨a, b, c', d, e, _⟩; exact SwapPost.symm ⟨a, b, c', d, e⟩
         · intro e w' h; exact SwapFail.symm h
 
